@@ -377,31 +377,57 @@ def do_transform(ctx):
             ok = src.get("k") == "mcall" and src["name"] == "get_all_exprs" and is_local(src["recv"], P.get("sys")) and uses == 1
             why = "the root list passed to do_transform_expr is not the unmodified sys.get_all_exprs() (%s, %d uses of the list)" % (show(src)[:80], uses)
     ctx.inst("R11.2", "do_transform:roots-and-mode", ok, f["span"], why, sample=show(calls[0])[:160] if calls else None)
-    # lookup closure
+    # lookup closure: for every mode exactly one update_expressions call is reached, and its lookup is get_fixed_point(map, old) under FixedPoint, map[old] otherwise
     ups = [n for n in ix.nodes if n.get("k") == "mcall" and n["name"] == "update_expressions"]
-    ok = len(ups) == 1 and is_local(ups[0]["recv"], P.get("sys")) and calls and ix.precedes(calls[0], ups[0])
-    why = "update_expressions must be called once on sys after the rewriting"
+    variants = ctx.facts.lib("patronus").adts.get(MODE[:-2], {}).get("variants", [])
+    vnames = [v["name"] for v in variants]
+    ok = bool(ups) and bool(vnames) and all(is_local(u["recv"], P.get("sys")) and calls and ix.precedes(calls[0], u) for u in ups)
+    why = "update_expressions must be called on sys after the rewriting"
+
+    def mode_holds(cnd, pol, v):
+        """True / False when the condition decides whether mode == v, None when it does not talk about the mode"""
+        if cnd.get("k") == "armpat" and is_local(cnd["scrut"], P.get("mode")):
+            alts = []
+            for alt in pat_alts(cnd["pat"]):
+                while alt.get("k") in ("pref", "pderef"):
+                    alt = alt["pat"]
+                if alt.get("k") in ("pwild", "pbind"):
+                    return pol
+                alts.append((alt.get("path") or "").split("::")[-1])
+            return (v in alts) == pol
+        if is_eq_test(cnd, P.get("mode"), MODE[:-2] + "::" + v):
+            return pol
+        for w in vnames:
+            if w != v and is_eq_test(cnd, P.get("mode"), MODE[:-2] + "::" + w):
+                return (not pol)
+        return None
     if ok:
-        cl = resolve(ups[0]["args"][-1])
-        ok = cl.get("k") == "closure" and len(cl["params"]) == 1
-        why = "lookup is not a closure"
-        if ok:
+        for v in vnames:
+            reached = []
+            for u in ups:
+                conds = norm.path_conditions(ix, u, arms=True)
+                if all(mode_holds(c_, pol, v) is not False for c_, pol in conds):
+                    reached.append(u)
+            if len(reached) != 1:
+                ok, why = False, "in mode %s, %d update_expressions calls are reached (expected exactly one)" % (v, len(reached))
+                break
+            cl = resolve(reached[0]["args"][-1])
+            if not (cl.get("k") == "closure" and len(cl["params"]) == 1):
+                ok, why = False, "lookup is not a closure"
+                break
             pb = binding_of_pat(cl["params"][0])
             disp = norm.enum_dispatch(cl["body"], P.get("mode"), MODE)
-            ok = disp is not None and pb is not None
-            why = "lookup closure is not a dispatch on mode between get_fixed_point(..) and map[..]"
-            if ok:
-                variants = ctx.facts.lib("patronus").adts.get(MODE[:-2], {}).get("variants", [])
-                vnames = [v["name"] for v in variants]
-                fp_branch = disp.get("FixedPoint")
-                others = [disp.get(v, disp.get("other")) for v in vnames if v != "FixedPoint"]
-                ok = fp_branch is not None and others and all(o is not None for o in others)
-                if ok:
-                    t = tail_value(fp_branch)
-                    okt = t.get("k") == "call" and callee(t) == GET_FIXED_POINT and is_local(t["args"][0], tmap) and is_local(t["args"][1], pb[1])
-                    oke = all(tail_value(e).get("k") == "index" and is_local(tail_value(e)["e"], tmap) and is_local(tail_value(e)["i"], pb[1]) for e in others)
-                    ok = okt and oke
-                why = "lookup closure: %s" % show(cl["body"])[:200]
+            body = cl["body"]
+            if disp is not None:
+                body = disp.get(v, disp.get("other"))
+            t = tail_value(body) if body is not None else {}
+            if v == "FixedPoint":
+                good = t.get("k") == "call" and callee(t) == GET_FIXED_POINT and is_local(t["args"][0], tmap) and pb is not None and is_local(t["args"][1], pb[1])
+            else:
+                good = t.get("k") == "index" and is_local(t["e"], tmap) and pb is not None and is_local(t["i"], pb[1])
+            if not good:
+                ok, why = False, "lookup in mode %s: %s" % (v, show(t)[:160])
+                break
     ctx.inst("R11.2", "do_transform:lookup", bool(ok), f["span"], why)
     # R11.3
     g = ctx.fn("patronus", "patronus::system::transform::simplify_expressions")
@@ -436,6 +462,25 @@ def anon(ctx):
             inserts = [n for n in walk(cl["body"]) if any(n is x for x in inserts_all)]
             paths = [(v if isinstance(v, bool) else None, ins_) for v, ins_, st in path_effects(cl["body"], inserts, []) if st in ("value", "return")]
             form, removal, body_sp = "retain", r, cl["sp"]
+            t_ = tail_value(cl["body"])
+            if not inserts and t_.get("k") == "unary" and t_["op"] == "!" and peel(t_["e"]).get("k") == "mcall" and peel(t_["e"])["name"] == "contains_key" \
+                    and pb and is_local(peel(t_["e"])["args"][0], pb[1]) and local_id(peel(t_["e"])["recv"]) is not None:
+                # form 3: the replacements are recorded first (a loop over sys.inputs filling a fresh map), then `retain(|x| !map.contains_key(x))`
+                mid = local_id(peel(t_["e"])["recv"])
+                init = simple_let_init(defs, mid)
+                fresh = init is not None and ((callee(peel(init)) or "").endswith(("::default", "::new")))
+                ins3 = [n for n in inserts_all if is_local(n["recv"], mid)]
+                loops3 = [l for l in ix.nodes if l.get("k") == "for" and field_path(chain(l["iter"])[0]) and field_path(chain(l["iter"])[0])[1] == p_sys and field_path(chain(l["iter"])[0])[2] == ["inputs"]]
+                good = fresh and len(ins3) == 1 and len(loops3) == 1 and contains(loops3[0]["body"], ins3[0]) and ix.precedes(loops3[0], r)
+                if good:
+                    lb = pat_bindings(loops3[0]["pat"])
+                    good = len(lb) == 1 and is_local(ins3[0]["args"][0], lb[0][1])
+                if good:
+                    inserts = ins3
+                    pb = lb[0]
+                    # kept iff not in the map; in the map iff the recording loop inserted it
+                    paths = [(False, True), (True, False)]
+                    form = "record-then-retain"
     elif not rets:
         # form 2: a loop over sys.inputs that pushes the kept inputs onto a new list which then replaces sys.inputs
         stores = [a for a in ix.nodes if a.get("k") == "assign" and field_path(a["l"]) and field_path(a["l"])[1] == p_sys and field_path(a["l"])[2] == ["inputs"] and peel(a["r"]).get("k") == "local"]
@@ -465,7 +510,7 @@ def anon(ctx):
     if inserts:
         ins = inserts[0]
         okk = is_local(ins["args"][0], pb[1]) if pb else False
-        ri = resolve(ins["args"][1])
+        ri = tail_value(resolve(ins["args"][1]))
         okz = False
         why = "replacement is not a match on the input's type"
         if ri.get("k") == "match":
